@@ -229,3 +229,124 @@ func TestReplay(t *testing.T) {
 	}
 	out.Emit(map[string]any{"summary": true, "cases": len(cases)})
 }
+
+// ---------------------------------------------------------------- TestDynamic (spec/RegistryDyn.tla)
+
+type dynStep struct {
+	Op   string `json:"op"`
+	Slot int    `json:"slot"`
+	Obs  string `json:"obs"`
+}
+
+type dynCase struct {
+	H []dynStep `json:"h"`
+}
+
+type dynTarget struct {
+	tag      int
+	baseName string
+	baseVal  uint32
+	register func(val uint32, name string)
+	write    func(val uint32) (xml, json string, xmlBack, jsonBack uint32, err error)
+}
+
+func dynTargetFor[T ~uint32](tag int, baseName string, baseVal uint32) dynTarget {
+	return dynTarget{tag: tag, baseName: baseName, baseVal: baseVal,
+		register: func(val uint32, name string) { ttlv.RegisterEnum[T](tag, map[T]string{T(val): name}) },
+		write: func(val uint32) (string, string, uint32, uint32, error) {
+			x := ttlv.MarshalXML(T(val))
+			j := ttlv.MarshalJSON(T(val))
+			var bx, bj T
+			if err := ttlv.UnmarshalXML(x, &bx); err != nil {
+				return string(x), string(j), 0, 0, fmt.Errorf("xml: %w", err)
+			}
+			if err := ttlv.UnmarshalJSON(j, &bj); err != nil {
+				return string(x), string(j), 0, 0, fmt.Errorf("json: %w", err)
+			}
+			return string(x), string(j), uint32(bx), uint32(bj), nil
+		}}
+}
+
+// TestDynamic replays every history of RegistryDyn.tla against the real (process-global) registry; every history
+// gets fresh extension values and names, so histories do not disturb each other. Run after the static cases.
+func TestDynamic(t *testing.T) {
+	path := vh.Env("VERIF_DYN_CASES", "")
+	if path == "" {
+		t.Skip("VERIF_DYN_CASES not set")
+	}
+	cases, err := vh.ReadNDJSON[dynCase](path)
+	if err != nil {
+		t.Fatal(err)
+	}
+	out, err := vh.NewWriter(vh.Env("VERIF_OUT", "registry_dyn_results.ndjson"))
+	if err != nil {
+		t.Fatal(err)
+	}
+	defer out.Close()
+	targets := []dynTarget{
+		dynTargetFor[kmip.State](kmip.TagState, "Active", uint32(kmip.StateActive)),
+		dynTargetFor[kmip.CryptographicAlgorithm](kmip.TagCryptographicAlgorithm, "AES", uint32(kmip.CryptographicAlgorithmAES)),
+		dynTargetFor[kmip.ObjectType](kmip.TagObjectType, "SecretData", uint32(kmip.ObjectTypeSecretData)),
+	}
+	steps := 0
+	for h, c := range cases {
+		tg := targets[h%len(targets)]
+		val := func(slot int) uint32 { return 0x80000000 + uint32(h)*4 + uint32(slot) }
+		name := func(slot int) string { return fmt.Sprintf("VendorExt%d_%d", h, slot) }
+		var probs []string
+		func() {
+			defer func() {
+				if r := recover(); r != nil {
+					probs = append(probs, "panic:"+vh.PanicSig(r))
+				}
+			}()
+			for k, s := range c.H {
+				steps++
+				at := fmt.Sprintf("step %d %s(%d)", k+1, s.Op, s.Slot)
+				switch s.Op {
+				case "register":
+					tg.register(val(s.Slot), name(s.Slot))
+				case "by-name":
+					v, err := ttlv.EnumByName(tg.tag, name(s.Slot))
+					if s.Obs == "value" && (err != nil || v != val(s.Slot)) {
+						probs = append(probs, fmt.Sprintf("registered-name-not-resolved:%s: %v %#x", at, err, v))
+					} else if s.Obs == "unknown" && err == nil {
+						probs = append(probs, fmt.Sprintf("unregistered-name-resolved:%s: %#x", at, v))
+					}
+				case "by-value":
+					n := ttlv.EnumName(tg.tag, val(s.Slot))
+					if s.Obs == "name" && n != name(s.Slot) {
+						probs = append(probs, fmt.Sprintf("registered-value-without-name:%s: %q", at, n))
+					} else if s.Obs == "none" && n != "" {
+						probs = append(probs, fmt.Sprintf("unregistered-value-named:%s: %q", at, n))
+					}
+				case "base-by-name":
+					if v, err := ttlv.EnumByName(tg.tag, tg.baseName); err != nil || v != tg.baseVal {
+						probs = append(probs, fmt.Sprintf("pinned-name-lost:%s: %v %#x", at, err, v))
+					}
+				case "base-by-value":
+					if n := ttlv.EnumName(tg.tag, tg.baseVal); n != tg.baseName {
+						probs = append(probs, fmt.Sprintf("pinned-value-lost:%s: %q", at, n))
+					}
+				case "write":
+					x, j, bx, bj, err := tg.write(val(s.Slot))
+					byName := strings.Contains(x, name(s.Slot)) && strings.Contains(j, name(s.Slot))
+					switch {
+					case err != nil:
+						probs = append(probs, fmt.Sprintf("written-form-not-read-back:%s: %v (xml %s)", at, err, x))
+					case bx != val(s.Slot) || bj != val(s.Slot):
+						probs = append(probs, fmt.Sprintf("read-back-differs:%s: %#x %#x", at, bx, bj))
+					case s.Obs == "by-name" && !byName:
+						probs = append(probs, fmt.Sprintf("registered-value-not-written-by-name:%s: %s", at, x))
+					case s.Obs == "hex" && byName:
+						probs = append(probs, fmt.Sprintf("unregistered-value-written-by-name:%s", at))
+					}
+				}
+			}
+		}()
+		if len(probs) > 0 {
+			out.Emit(map[string]any{"history": h, "tag": ttlv.TagString(tg.tag), "h": c.H, "problems": probs})
+		}
+	}
+	out.Emit(map[string]any{"summary": true, "histories": len(cases), "steps": steps})
+}
